@@ -52,7 +52,7 @@ def child_record(tree, cfg, base, name):
         s = os.stat(p)
     except (OSError, ValueError):
         s = None
-    secure = not any(x in sel for x in INSECURE)
+    secure = not any(x in sel for x in INSECURE) and not sel.endswith("/.")
     if s is not None and secure and (st.S_ISREG(s.st_mode) or st.S_ISDIR(s.st_mode)):
         pi = listing.pop_info(tree, cfg, sel)
         kind = "F" if st.S_ISREG(s.st_mode) else "O"
